@@ -153,7 +153,7 @@ impl Property for C10 {
         "exploration"
     }
     fn rule(&self) -> String {
-        "A case = secure server with max_clients 1-4 (raised and lowered at run time in some cases), up to 8 client objects over 4 identities and 5 addresses (several tokens per identity, several clients per address, one token per client object), spawned at any time. Steps: lossy honest handshake steps, server ticks with lossy keep-alive delivery and clock steps up to beyond the timeout, client disconnects (delivered or lost), server.disconnect(id), genuine payloads, replays of any earlier client datagram from its own or another address, responses from a half-open address sealed with one of its own tokens' keys but echoing the challenge issued for another id (must never connect; in half of the cases every token seals the same user data), raising and lowering the limit (the bound on the count is only asserted in cases that never lower it, as the statement says; everything else is asserted always). Oracles after every step: clients_id pairwise distinct, client_addr pairwise distinct, connected_clients == |clients_id| <= max_clients; the outputs ClientConnected / ClientDisconnected alternate per id, a disconnect names the id and address of the open connect, none without one, a connect never happens while the server is full nor for an id or address already connected, its id / address / user data are those of the triggering client's token; a session is ended by a datagram only if that is its own client's unmodified disconnect packet; the set of ids in the table equals the set opened by the event stream; lookups by id return the authenticated session's address and user data; a genuine payload of a session surfaces under its id. Non-trivial: >= 2 sessions open or half-open at once and >= 1 refused, raced or replayed handshake. Distinct = hash of the decoded operation trace.".into()
+        "A case = secure server with max_clients 1-4 (raised and lowered at run time in some cases), up to 8 client objects over 4 identities and 5 addresses (several tokens per identity, several clients per address, one token per client object), spawned at any time. Steps: lossy honest handshake steps, server ticks with lossy keep-alive delivery and clock steps up to beyond the timeout, client disconnects (delivered or lost), server.disconnect(id), genuine payloads, replays of any earlier client datagram from its own or another address, responses from a half-open address sealed with one of its own tokens' keys but echoing the challenge issued for another id (must never connect; in half of the cases every token seals the same user data), raising and lowering the limit (the bound on the count is only asserted in cases that never lower it, as the statement says; everything else is asserted always). Oracles after every step: clients_id pairwise distinct, client_addr pairwise distinct, connected_clients == |clients_id| <= max_clients; the outputs ClientConnected / ClientDisconnected alternate per id, a disconnect names the id and address of the open connect, none without one, a connect never happens while the server is full nor for an id or address already connected, its id / address / user data are those of the triggering client's token; a session is ended by a datagram only if that is its own client's unmodified disconnect packet; the set of ids in the table equals the set opened by the event stream; lookups by id return the authenticated session's address and user data; a genuine payload of a session surfaces under its id; generate_payload_packet(id) succeeds exactly for connected ids, is addressed to the authenticated session's address and is sealed with that session's key (probed for one of the four identities at every payload step, connected or not). Non-trivial: >= 2 sessions open or half-open at once and >= 1 refused, raced or replayed handshake. Distinct = hash of the decoded operation trace.".into()
     }
     fn assumptions(&self) -> Vec<String> {
         vec!["one token per client object (re-using a token for a second session re-uses its keys; outside the statement)".into(), "lowering max_clients disconnects nobody (set_max_clients changes the limit only)".into()]
@@ -162,7 +162,7 @@ impl Property for C10 {
         PbtCfg { cases: tier.pick(300_000, 5_000_000), max_len: tier.pick(600, 2000), shrink_ms: 120_000 }
     }
     fn required_labels(&self) -> Vec<&'static str> {
-        vec!["two_open", "same_id_two_pending", "same_addr_two_tokens", "full_refused", "timeout_disconnect", "client_disconnect", "server_disconnect", "replay", "limit_raised", "limit_lowered", "payload_ok", "cross_response", "shared_user_data"]
+        vec!["two_open", "same_id_two_pending", "same_addr_two_tokens", "full_refused", "timeout_disconnect", "client_disconnect", "server_disconnect", "replay", "limit_raised", "limit_lowered", "payload_ok", "payload_routed", "cross_response", "shared_user_data"]
     }
     fn run_choices(&self, ctx: &mut Ctx) -> Outcome {
         let mut nw = NetWorld::new(ctx.src.u16() as u64);
@@ -361,6 +361,38 @@ impl Property for C10 {
                 }
                 6 => {
                     let c = ctx.src.below(n);
+                    // payload routing by id, server -> client: for one of the four identities (connected or not) the server is asked for
+                    // a payload datagram; it must exist exactly if the id is connected, be addressed to the authenticated session's
+                    // address and be sealed for that session
+                    {
+                        let probe = 300 + (c % 4) as u64;
+                        let pmsg = vec![0xA0 | (probe as u8 & 3); 7 + ops % 9];
+                        match (nw.server_payload(0, probe, &pmsg), m.open.get(&probe)) {
+                            (Ok(did), Some(sess)) => {
+                                let d = nw.pool[did].clone();
+                                if d.to != sess.addr {
+                                    return Err(Fail::new("payload_routed_to_wrong_address", format!("generate_payload_packet({probe}) is addressed to {} but the session authenticated for that id lives at {}", d.to, sess.addr)));
+                                }
+                                if let Some(owner) = sess.client {
+                                    let mut b = d.bytes.clone();
+                                    match peek(&mut b, PROTO, &nw.clients[owner].token.server_to_client_key) {
+                                        Some((_, renetcode::verif::Packet::Payload(p))) if p == &pmsg[..] => ctx.label("payload_routed"),
+                                        _ => {
+                                            return Err(Fail::new("payload_sealed_for_another_session", format!("generate_payload_packet({probe}) produced a datagram the session authenticated for that id (client object {owner}) cannot open")));
+                                        }
+                                    }
+                                }
+                                nw.deliver_to_clients(did);
+                            }
+                            (Ok(did), None) => {
+                                return Err(Fail::new("payload_for_unknown_id", format!("generate_payload_packet({probe}) produced a datagram for {} although that id is not connected", nw.pool[did].to)));
+                            }
+                            (Err(e), Some(sess)) => {
+                                return Err(Fail::new("payload_refused_for_connected_id", format!("generate_payload_packet({probe}) failed ({e}) although the id is connected at {}", sess.addr)));
+                            }
+                            (Err(_), None) => {}
+                        }
+                    }
                     if nw.clients[c].client.is_connected() {
                         let msg = vec![c as u8; 5 + ctx.src.below(20)];
                         if let Ok(did) = nw.client_payload(c, &msg) {
